@@ -225,7 +225,7 @@ Lemma gunit_sim fo u K : gunit_ok fo u = true -> cont K ->
   Rel st x -> m_prev x = Some ak -> node_attrs (m_g x) ak = Ok a0 -> parse_graph_base_node fo (u_name u) = Ok a0 ->
   m_pend x = oord (u_bond u) ->
   rec_set (Some ak) [(1, a0, Some 1)] (rec_del (Some ak) (s_recipes st)) = rc ++ [(Some ak, [(1, a0, Some 1)])] ->
-  length rc = length (m_stack x) -> rec_get (Some ak) rc = None -> Forall skipch pre ->
+  rec_get (Some ak) rc = None -> Forall skipch pre ->
   match m_run fo (gunit_toks u) x with
   | Ok x1 => exists st1 pre1,
       main_loop (length (u_body u) + f) fo pc (pre ++ gunit_str u ++ K) st = main_loop f fo "]"%char (pre1 ++ K) st1
@@ -233,10 +233,10 @@ Lemma gunit_sim fo u K : gunit_ok fo u = true -> cont K ->
   | Err e => main_loop (length (u_body u) + f) fo pc (pre ++ gunit_str u ++ K) st = Err e
   end.
 Proof.
-  intros Hok HK st x pre pc f ak a0 rc HR Ep Hat Ea0 Hpd Hset Hlen Habs Hpre.
+  intros Hok HK st x pre pc f ak a0 rc HR Ep Hat Ea0 Hpd Hset Habs Hpre.
   destruct (gunit_ok_parts fo u Hok) as (Hna & Hbne & Hbo & Hlb & Hd & HN).
   pose proof (unit_body_gen fo u ak a0 (m_stack x) rc [] K Ea0 Hna Hbo Hd (or_intror HK) eq_refl (fun C => False_ind _ (C eq_refl)) (Nat.le_0_l _)
-                Hlen Habs (u_body u) true st x (pre ++ ["("%char]) pc f [] Hbne HR) as Hbody.
+                Habs (u_body u) true st x (pre ++ ["("%char]) pc f [] Hbne HR) as Hbody.
   cbn [closes_toks closes_str flat_map app length skipn] in Hbody. rewrite app_nil_r in Hbody.
   assert (Hf1 : m_stack x = m_stack x /\ m_prev x = Some ak
                 /\ rec_set (Some ak) [(1, a0, Some 1)] (rec_del (Some ak) (s_recipes st)) = rc ++ [(Some ak, [(1, a0, Some 1)])]
@@ -250,7 +250,7 @@ Proof.
   assert (Etl : pre ++ gunit_str u ++ K = (pre ++ ["("%char]) ++ flat_map bnode_str (u_body u) ++ closing_str u ++ K).
   { unfold gunit_str. rewrite <- !app_assoc. cbn [app]. now rewrite <- app_assoc. }
   rewrite Etl. destruct (m_run fo (gunit_toks u) x) as [x1|e]; [|exact Hbody].
-  destruct Hbody as (st1 & pre1 & E & Hp & HR1 & Hrc & Hs). exists st1, pre1.
+  destruct Hbody as (st1 & pre1 & E & Hp & HR1 & Hrc & Hs & _). exists st1, pre1.
   split; [exact E|]. split; [exact Hp|]. split; [exact HR1|]. split; [|exact Hs]. intros E0. apply Hrc. now rewrite Hs.
 Qed.
 
@@ -381,7 +381,7 @@ Proof.
         + apply rec_get_notin. now rewrite Ekeys. }
     destruct Hrc as (rc & Hset & Hlen & Habs).
     pose proof (gunit_sim fo u K Hoku HK st x pre pc (gsegs_nodes t + Datatypes.S f) ak a0 rc HR Ep Hat Ea0
-                  (eq_trans (ti_pend fo x s HT) Hpd) Hset Hlen Habs Hpre) as Hu.
+                  (eq_trans (ti_pend fo x s HT) Hpd) Hset Habs Hpre) as Hu.
     replace (length (u_body u) + gsegs_nodes t + Datatypes.S f)%nat with (length (u_body u) + (gsegs_nodes t + Datatypes.S f))%nat by lia.
     rewrite <- app_assoc. fold K.
     destruct (m_run fo (gunit_toks u) x) as [x1|e] eqn:Erun; cbn [bind]; [|exact Hu].
